@@ -314,6 +314,53 @@ func ruleContinueHonoured(c *Ctx) {
 			c.ob(rule, key, s.call.Pos(), kind == "stop" || kind == "returned",
 				"the error of following a $ref is tested with a plain err != nil inside the expander: under ContinueOnError it escapes to callers that stop on any error (tuple items, ExpandSchemaWithBasePath), so expansion aborts or skips siblings instead of leaving the bad $ref in place")
 		}
+		// once the stop predicate has let an error through (we are continuing), that error is not handed back
+		// to the caller any more: some callers stop on any non-nil error
+		nret := 0
+		ast.Inspect(fd.Body, func(n ast.Node) bool {
+			if _, isLit := n.(*ast.FuncLit); isLit {
+				return false
+			}
+			rs, ok := n.(*ast.ReturnStmt)
+			if !ok || len(rs.Results) == 0 {
+				return true
+			}
+			eid, ok := unparen(rs.Results[len(rs.Results)-1]).(*ast.Ident)
+			if !ok || isNilIdent(c, eid) || !isErrorType(c.typeOf(eid)) {
+				return true
+			}
+			eo := c.objOf(eid)
+			continuing := false
+			for _, cl := range c.literalsAt(fd, rs) {
+				if c.errCheckKind(cl.e, eo) == "stop" && cl.neg {
+					// the variable must still hold the error that was tested
+					reassigned := false
+					ast.Inspect(fd.Body, func(m ast.Node) bool {
+						as, isA := m.(*ast.AssignStmt)
+						if !isA || as.Pos() < cl.e.End() || as.Pos() >= rs.Pos() {
+							return true
+						}
+						for _, l := range as.Lhs {
+							if lid, isId := unparen(l).(*ast.Ident); isId && c.objOf(lid) == eo {
+								reassigned = true
+							}
+						}
+						return true
+					})
+					if !reassigned {
+						continuing = true
+					}
+				}
+			}
+			if !continuing {
+				return true
+			}
+			nret++
+			c.saw(fn)
+			c.ob(rule, fmt.Sprintf("%s:continuing-return#%d", fn, nret), rs.Pos(), false,
+				"the function returns the very error the stop predicate has just let through: under ContinueOnError the error reaches callers that stop on any non-nil error (tuple items, ExpandSchemaWithBasePath), so siblings of the bad $ref stay unexpanded or the entry point fails")
+			return true
+		})
 	}
 }
 
@@ -373,6 +420,29 @@ func rulePtrFillGuard(c *Ctx) {
 				}
 				c.ob(rule, fmt.Sprintf("%s:deref(%s)#%d", fn, v.Name(), n), st.Pos(), guarded,
 					"the pointer filled by resolving the $ref is dereferenced without a nil test: a target that decodes to nothing (JSON null, or a failed resolve under ContinueOnError) leaves it nil with a nil error, and expansion panics")
+				// ... and only where the resolution is known to have succeeded: a decoding that fails half way
+				// (an ill-typed target) leaves an allocated, empty value behind together with its error
+				var errObj types.Object
+				ast.Inspect(fd.Body, func(m ast.Node) bool {
+					as, isA := m.(*ast.AssignStmt)
+					if !isA || len(as.Rhs) != 1 || unparen(as.Rhs[0]) != ast.Expr(call) {
+						return true
+					}
+					if eid, isId := as.Lhs[len(as.Lhs)-1].(*ast.Ident); isId && eid.Name != "_" && isErrorType(c.typeOf(eid)) {
+						errObj = c.objOf(eid)
+					}
+					return true
+				})
+				succeeded := false
+				if errObj != nil {
+					for _, cl := range c.literalsAt(fd, st) {
+						if k := c.errCheckKind(cl.e, errObj); k == "nil" && !cl.neg || k == "nonnil" && cl.neg {
+							succeeded = true
+						}
+					}
+				}
+				c.ob(rule, fmt.Sprintf("%s:deref(%s)#%d:resolved", fn, v.Name(), n), st.Pos(), succeeded,
+					"the pointer filled by resolving the $ref is used where the error of that resolution is not known to be nil: under ContinueOnError a target of the wrong JSON type leaves a half-decoded empty value, which then replaces the $ref instead of the $ref staying in place")
 				return true
 			})
 		}
